@@ -126,8 +126,12 @@ class Responder:
         self.rx: CipherState | None = None  # initiator -> responder
         self.tx: CipherState | None = None  # responder -> initiator
 
-    def read_message1(self, msg: bytes) -> bytes:
-        """Process the initiator's handshake message; returns its payload."""
+    def read_message1(self, msg: bytes, lenient: bool = False) -> bytes:
+        """Process the initiator's handshake message; returns its payload.
+
+        lenient=True models a NON-conformant device that does not verify message 1
+        (used only to produce a "responder keyed differently" fault for C04).
+        """
         if len(msg) < 32 + 16:
             raise NoiseError(f"message 1 too short ({len(msg)})")
         ss = self.ss
@@ -135,6 +139,13 @@ class Responder:
         self.re = msg[:32]                     # e token
         ss.mix_hash(self.re)
         ss.mix_key(self.re)                    # psk mode: e is mixed into ck too
+        if lenient:
+            try:
+                return ss.decrypt_and_hash(msg[32:])
+            except NoiseError:
+                ss.cs.n += 1
+                ss.mix_hash(msg[32:])
+                return b""
         return ss.decrypt_and_hash(msg[32:])
 
     def write_message2(self, payload: bytes = b"") -> bytes:
